@@ -329,7 +329,9 @@ def run(P: Program, rep: Report):
                 regexes_in(list(a_), found)
                 regexes_in(kw_, found)
                 pats += [(pv, enc_cls.node.lineno) for pv in found if (pv, enc_cls.node.lineno) not in pats]
-    rep.require_count("C18.R7", "keep-math patterns handed to the conversion rule by the encoder's constructor", len(pats), 1)
+    if not pats:
+        # no regular expression reaches a conversion rule with keep_math=True: whether keep_math selects a rule at all is R4's question
+        rep.not_decided.append("C18.R7: the encoder built with keep_math=True hands no regular expression to a conversion rule (see C18.R4)")
     for pv, ln in pats:
         try:
             rx_ = _re.compile(pv)
